@@ -1,5 +1,6 @@
 import Proofs.C12Lemmas
 import Proofs.C12PeakLemmas
+import Proofs.LstsqGrid
 import Mathlib.Tactic.LinearCombination
 import Mathlib.Tactic.NormNum
 
@@ -474,5 +475,308 @@ example : findPeak (K := ℚ) (fun _ _ => none)
     [[0, 0, 0, 0], [0, 3, 1, 0], [0, 0, 0, 0]] 5
     (some [[false, false, false, false], [false, true, true, false], [false, false, false, false]])
     = .ok ⟨5 / 4, 1, .centerOfMass, 0, 3, 0, 4⟩ := by decide +kernel
+
+end TW.C12
+
+/-!
+## The least-squares call made concrete (`Model/Lstsq.lean`)
+
+`numpy.linalg.lstsq` is no longer only a parameter: `lstsqNormal` solves the normal equations
+`(AᵀA) c = Aᵀ b` of the six-column design matrix of `_find_peak` by elimination (`none` when the normal
+matrix is singular), `lstsqMinNorm` is numpy's documented result in every case (the least-squares
+solution of minimum norm), and `findPeakConcrete = findPeak (lstsqLsq ·)` is a closed function.
+`rtol = 0`: exact arithmetic.  Helper lemmas: `Proofs/LstsqLemmas.lean`, `Proofs/LstsqPeak.lean`,
+`Proofs/LstsqGrid.lean`.
+-/
+namespace TW.C12
+open TW.Lstsq
+variable {K : Type} [Field K] [LinearOrder K] [IsStrictOrderedRing K]
+
+/-- Whenever `lstsqNormal` returns `c`, `‖A c − b‖² ≤ ‖A c' − b‖²` for every `c'`: a solution of the
+normal equations is a global minimum of the sum of squared residuals. -/
+theorem lstsqNormal_is_least_squares (rows : List (List K)) (d : List K)
+    (hlen : d.length = rows.length) (c : QCoef K) (h : lstsqNormal 0 rows d = some c)
+    (c' : QCoef K) : resid2 rows d c ≤ resid2 rows d c' :=
+  lstsqNormal_optimal rows d hlen c h c'
+
+/-- `lstsqNormal` returns exactly when the normal matrix `AᵀA` is regular (full column rank) … -/
+theorem lstsqNormal_returns_iff_regular (rows : List (List K)) (d : List K)
+    (hlen : d.length = rows.length) :
+    (∃ c, lstsqNormal 0 rows d = some c) ↔ (toM (gramRows 6 rows)).det ≠ 0 := by
+  rw [← rank_six_iff rows d hlen]
+  constructor
+  · rintro ⟨c, hc⟩; exact (lstsqNormal_eq_some rows d c hc).1
+  · intro h; exact ⟨_, lstsqNormal_of_rank rows d h⟩
+
+/-- … and returns `none` exactly when it is singular (rank-deficient design). -/
+theorem lstsqNormal_none_iff_singular (rows : List (List K)) (d : List K)
+    (hlen : d.length = rows.length) :
+    lstsqNormal 0 rows d = none ↔ (toM (gramRows 6 rows)).det = 0 := by
+  have h := lstsqNormal_returns_iff_regular rows d hlen
+  constructor
+  · intro hn
+    by_contra hdet
+    obtain ⟨c, hc⟩ := h.mpr hdet
+    rw [hn] at hc; cases hc
+  · intro hdet
+    cases hc : lstsqNormal 0 rows d with
+    | none => rfl
+    | some c => exact absurd hdet (h.mp ⟨c, hc⟩)
+
+/-- Exact data: if `b = A c0` and the normal matrix is regular, the result is `c0`. -/
+theorem lstsqNormal_exact (rows : List (List K)) (c0 : QCoef K)
+    (hreg : (toM (gramRows 6 rows)).det ≠ 0) :
+    lstsqNormal 0 rows (rows.map fun r => rowDot r c0) = some c0 :=
+  lstsqNormal_exact' rows c0 hreg
+
+/-- What `findPeak` is handed (`lstsqLsq`, numpy's result): always a least-squares solution, of
+minimum Euclidean norm among all least-squares solutions, and the only such vector — also when the
+design matrix is rank deficient (good pixels on a conic), where `_find_peak` goes on with these
+coefficients. -/
+theorem lstsqLsq_least_squares_min_norm (rows : List (List K)) (d : List K)
+    (hlen : d.length = rows.length) :
+    ∃ c, lstsqLsq 0 rows d = some c ∧
+      (∀ c', resid2 rows d c ≤ resid2 rows d c') ∧
+      (∀ c', resid2 rows d c' ≤ resid2 rows d c → norm2 c ≤ norm2 c') ∧
+      (∀ c', resid2 rows d c' ≤ resid2 rows d c → norm2 c' ≤ norm2 c → c' = c) :=
+  ⟨lstsqMinNorm 0 rows d, rfl, lstsqMinNorm_optimal rows d hlen, lstsqMinNorm_min rows d hlen,
+    lstsqMinNorm_uniq rows d hlen⟩
+
+/-- On a regular normal matrix `lstsqLsq` is `lstsqNormal`. -/
+theorem lstsqLsq_eq_normal (rows : List (List K)) (d : List K) (c : QCoef K)
+    (h : lstsqNormal 0 rows d = some c) : lstsqLsq 0 rows d = some c := by
+  unfold lstsqLsq
+  rw [lstsqMinNorm_of_normal rows d c h]
+
+/-- **Full column rank on a sub-grid.**  If the points contain the product of three distinct
+abscissae and three distinct ordinates, the six monomials `1, x, y, xy, x², y²` are linearly
+independent on them: the normal matrix is regular and `lstsqNormal` returns, whatever the data. -/
+theorem design_full_rank_of_subgrid (pts : List (ℕ × ℕ × K)) (xs ys : Fin 3 → ℕ)
+    (hx : Function.Injective xs) (hy : Function.Injective ys)
+    (hmem : ∀ a b, ∃ v, (xs a, ys b, v) ∈ pts) :
+    (toM (gramRows 6 (pts.map designRow))).det ≠ 0 ∧
+    ∀ d : List K, d.length = pts.length → ∃ c, lstsqNormal 0 (pts.map designRow) d = some c :=
+  ⟨design_regular_of_subgrid pts xs ys hx hy hmem,
+   fun d hd => lstsqNormal_of_subgrid pts xs ys hx hy hmem d hd⟩
+
+/-- The same for a fit box of `_find_peak`: three distinct columns `is` and three distinct rows `js`
+of the box whose nine crossings are good pixels. -/
+theorem design_full_rank_box_subgrid (data : List (List K)) (mask : Option (List (List Bool)))
+    (y1 y2 x1 x2 : ℕ) (is js : Fin 3 → ℕ) (hi : Function.Injective is) (hj : Function.Injective js)
+    (hib : ∀ a, x1 ≤ is a ∧ is a < x2) (hjb : ∀ b, y1 ≤ js b ∧ js b < y2)
+    (hm : ∀ a b, maskAt mask (js b) (is a) = true) :
+    9 ≤ (boxPoints data mask y1 y2 x1 x2).length ∧
+    (toM (gramRows 6 ((boxPoints data mask y1 y2 x1 x2).map designRow))).det ≠ 0 ∧
+    ∃ c, lstsqNormal 0 ((boxPoints data mask y1 y2 x1 x2).map designRow)
+      ((boxPoints data mask y1 y2 x1 x2).map fun p => p.2.2) = some c := by
+  obtain ⟨hxi, hyi, hmem⟩ := boxPoints_subgrid data mask y1 y2 x1 x2 is js hi hj hib hjb hm
+  exact ⟨subgrid_length _ _ _ hxi hyi hmem, design_regular_of_subgrid _ _ _ hxi hyi hmem,
+    lstsqNormal_of_subgrid _ _ _ hxi hyi hmem _ (by simp)⟩
+
+/-- The full `peak_fit_box × peak_fit_box` box (any box of at least 3 columns and 3 rows) without a
+masked pixel has full column rank, for every size. -/
+theorem design_full_rank_full_box (data : List (List K)) (mask : Option (List (List Bool)))
+    (y1 y2 x1 x2 : ℕ) (hx : x1 + 3 ≤ x2) (hy : y1 + 3 ≤ y2)
+    (hm : ∀ j i, y1 ≤ j → j < y2 → x1 ≤ i → i < x2 → maskAt mask j i = true) :
+    (toM (gramRows 6 ((boxPoints data mask y1 y2 x1 x2).map designRow))).det ≠ 0 ∧
+    ∃ c, lstsqNormal 0 ((boxPoints data mask y1 y2 x1 x2).map designRow)
+      ((boxPoints data mask y1 y2 x1 x2).map fun p => p.2.2) = some c :=
+  (design_full_rank_box_subgrid data mask y1 y2 x1 x2 (first3 x1) (first3 y1) (first3_inj x1)
+    (first3_inj y1) (fun a => by unfold first3; omega) (fun b => by unfold first3; omega)
+    (fun a b => hm _ _ (by unfold first3; omega) (by unfold first3; omega)
+      (by unfold first3; omega) (by unfold first3; omega))).2
+
+/-- Every fit box that `_find_peak` reaches (the EDGE test passed) has at least three columns and
+rows, so without a mask the fit is always uniquely determined. -/
+theorem fit_box_unmasked_full_rank (data : List (List K)) (box : ℕ) (hbox : 1 ≤ box)
+    (y1 y2 x1 x2 : ℕ) (hsearch : peakBox data box none = .fit y1 y2 x1 x2) :
+    ∃ c, lstsqNormal 0 ((boxPoints data none y1 y2 x1 x2).map designRow)
+      ((boxPoints data none y1 y2 x1 x2).map fun p => p.2.2) = some c := by
+  obtain ⟨hx, hy⟩ := peakBox_fit_width data box none hbox y1 y2 x1 x2 hsearch
+  exact (design_full_rank_full_box data none y1 y2 x1 x2 hx hy (fun _ _ _ _ _ _ => rfl)).2
+
+section
+variable [FloorRing K]
+
+/-- **`paraboloid_vertex` with nothing assumed about `lstsq`.**  If the discrete peak search ends with
+fit box `[y1, y2) × [x1, x2)`, the good pixels of the box are samples of the concave paraboloid
+`A − a (i − X0)² − b (i − X0)(j − Y0) − c (j − Y0)²` (`a > 0`, `4ac − b² > 0`) whose vertex lies in the
+box, and they include the nine crossings of three distinct columns and three distinct rows, then
+`_find_peak` — with the concrete least-squares solver — returns exactly the vertex, with status
+`SUCCESS`. -/
+theorem paraboloid_vertex_concrete (data : List (List K)) (box : ℕ)
+    (mask : Option (List (List Bool))) (y1 y2 x1 x2 : ℕ) (A a b c X0 Y0 : K)
+    (hbox : 1 ≤ box)
+    (hsearch : peakBox data box mask = .fit y1 y2 x1 x2)
+    (hsamp : ∀ j i, y1 ≤ j → j < y2 → x1 ≤ i → i < x2 → maskAt mask j i = true →
+        at2 data j i = A - a * ((i : K) - X0) ^ 2 - b * ((i : K) - X0) * ((j : K) - Y0)
+                        - c * ((j : K) - Y0) ^ 2)
+    (hgrid : ∃ is js : Fin 3 → ℕ, Function.Injective is ∧ Function.Injective js ∧
+        (∀ p, x1 ≤ is p ∧ is p < x2) ∧ (∀ q, y1 ≤ js q ∧ js q < y2) ∧
+        ∀ p q, maskAt mask (js q) (is p) = true)
+    (ha : 0 < a) (hdet : 0 < 4 * a * c - b ^ 2)
+    (hX : (x1 : K) ≤ X0 ∧ X0 ≤ (x2 : K) - 1) (hY : (y1 : K) ≤ Y0 ∧ Y0 ≤ (y2 : K) - 1) :
+    findPeakConcrete 0 data box mask = .ok ⟨X0, Y0, .success, y1, y2, x1, x2⟩ := by
+  obtain ⟨is, js, hi, hj, hib, hjb, hm⟩ := hgrid
+  obtain ⟨h9, hreg, _⟩ := design_full_rank_box_subgrid data mask y1 y2 x1 x2 is js hi hj hib hjb hm
+  set u0 : K := X0 - x1 + 1 with hu0
+  set v0 : K := Y0 - y1 + 1 with hv0
+  -- the exact coefficients in box coordinates
+  set cs : QCoef K := ⟨A - a * u0 ^ 2 - b * u0 * v0 - c * v0 ^ 2, 2 * a * u0 + b * v0,
+    2 * c * v0 + b * u0, -b, -a, -c⟩ with hcs
+  have hcsv : ∀ x y : K, evalQ cs x y
+      = A - a * (x + x1 - 1 - X0) ^ 2 - b * (x + x1 - 1 - X0) * (y + y1 - 1 - Y0)
+          - c * (y + y1 - 1 - Y0) ^ 2 := by
+    intro x y; simp only [evalQ, hcs, hu0, hv0]; ring
+  -- the data at the good pixels are the values of `cs`
+  have hd : ∀ p ∈ boxPoints data mask y1 y2 x1 x2, p.2.2 = evalQ cs (p.1 : K) (p.2.1 : K) := by
+    intro p hp
+    obtain ⟨j, i, h1, h2, h3, h4, hmk, rfl⟩ := mem_boxPoints data mask y1 y2 x1 x2 p hp
+    simp only
+    rw [hsamp j i h1 h2 h3 h4 hmk, hcsv]
+    have e1 : ((i - x1 + 1 : ℕ) : K) = (i : K) - x1 + 1 := by
+      rw [Nat.cast_add, Nat.cast_sub h3]; simp
+    have e2 : ((j - y1 + 1 : ℕ) : K) = (j : K) - y1 + 1 := by
+      rw [Nat.cast_add, Nat.cast_sub h1]; simp
+    rw [e1, e2]; ring
+  have hdata : ((boxPoints data mask y1 y2 x1 x2).map fun p => p.2.2)
+      = ((boxPoints data mask y1 y2 x1 x2).map designRow).map fun r => rowDot r cs := by
+    rw [List.map_map]
+    apply List.map_congr_left
+    intro p hp
+    rw [hd p hp, Function.comp_apply, rowDot_designRow]
+  have hN : lstsqNormal 0 ((boxPoints data mask y1 y2 x1 x2).map designRow)
+      ((boxPoints data mask y1 y2 x1 x2).map fun p => p.2.2) = some cs := by
+    rw [hdata]; exact lstsqNormal_exact' _ cs hreg
+  have hL := lstsqLsq_eq_normal _ _ cs hN
+  exact paraboloid_vertex (lstsqLsq 0) data box mask y1 y2 x1 x2 A a b c X0 Y0 cs hbox hsearch
+    (by omega) hL (fun x y => by have := hcsv x y; simp only [evalQ] at this; exact this)
+    ha hdet hX hY
+
+/-- Without a mask nothing but the data is assumed: samples of a concave paraboloid with its vertex
+inside the fit box ⇒ the vertex is returned exactly (every fit box has full column rank). -/
+theorem paraboloid_vertex_unmasked (data : List (List K)) (box : ℕ) (y1 y2 x1 x2 : ℕ)
+    (A a b c X0 Y0 : K) (hbox : 1 ≤ box)
+    (hsearch : peakBox data box none = .fit y1 y2 x1 x2)
+    (hsamp : ∀ j i, y1 ≤ j → j < y2 → x1 ≤ i → i < x2 →
+        at2 data j i = A - a * ((i : K) - X0) ^ 2 - b * ((i : K) - X0) * ((j : K) - Y0)
+                        - c * ((j : K) - Y0) ^ 2)
+    (ha : 0 < a) (hdet : 0 < 4 * a * c - b ^ 2)
+    (hX : (x1 : K) ≤ X0 ∧ X0 ≤ (x2 : K) - 1) (hY : (y1 : K) ≤ Y0 ∧ Y0 ≤ (y2 : K) - 1) :
+    findPeakConcrete 0 data box none = .ok ⟨X0, Y0, .success, y1, y2, x1, x2⟩ := by
+  obtain ⟨hx, hy⟩ := peakBox_fit_width data box none hbox y1 y2 x1 x2 hsearch
+  exact paraboloid_vertex_concrete data box none y1 y2 x1 x2 A a b c X0 Y0 hbox hsearch
+    (fun j i h1 h2 h3 h4 _ => hsamp j i h1 h2 h3 h4)
+    ⟨first3 x1, first3 y1, first3_inj x1, first3_inj y1, fun p => by unfold first3; omega,
+      fun q => by unfold first3; omega, fun _ _ => rfl⟩ ha hdet hX hY
+
+/-- `peak_in_bounds` for the closed function: finite coordinates inside the fit box and the
+histogram, documented status — also on rank-deficient boxes, where the minimum-norm coefficients are
+used. -/
+theorem peak_in_bounds_concrete (data : List (List K)) (box : ℕ)
+    (mask : Option (List (List Bool))) (hbox : 1 ≤ box)
+    (hny : 0 < data.length) (hnx : 0 < (data.headD []).length)
+    (hnn : ∀ row ∈ data, ∀ v ∈ row, 0 ≤ v) :
+    ∃ p : PeakRes K, findPeakConcrete 0 data box mask = .ok p ∧
+      p.status.toString ∈ ["SUCCESS", "ERROR:NODATA", "WARNING:EDGE", "WARNING:BADFIT",
+                           "WARNING:CENTER-OF-MASS"] ∧
+      (p.x1 < p.x2 ∧ p.x2 ≤ (data.headD []).length ∧ p.y1 < p.y2 ∧ p.y2 ≤ data.length) ∧
+      ((p.x1 : K) ≤ p.x ∧ p.x ≤ (p.x2 : K) - 1 ∧ (p.y1 : K) ≤ p.y ∧ p.y ≤ (p.y2 : K) - 1) ∧
+      (0 ≤ p.x ∧ p.x ≤ ((data.headD []).length : K) - 1 ∧ 0 ≤ p.y ∧ p.y ≤ (data.length : K) - 1) :=
+  peak_in_bounds (lstsqLsq 0) data box mask hbox hny hnx hnn
+
+/-- `peak_near_max` for the closed function. -/
+theorem peak_near_max_concrete (data : List (List K)) (box : ℕ)
+    (mask : Option (List (List Bool))) (hbox : 1 ≤ box)
+    (hny : 0 < data.length) (hnx : 0 < (data.headD []).length)
+    (hnn : ∀ row ∈ data, ∀ v ∈ row, 0 ≤ v) :
+    (findPeakCore (lstsqLsq 0) data box mask).status = .nodata ∨
+    ∃ jmax imax, jmax < data.length ∧ imax < (data.headD []).length ∧ maskAt mask jmax imax = true ∧
+      (∀ j i, j < data.length → i < (data.headD []).length → maskAt mask j i = true →
+        at2 data j i ≤ at2 data jmax imax) ∧
+      |(findPeakCore (lstsqLsq 0) data box mask).x - (imax : K)| ≤ (box : K) - 1 ∧
+      |(findPeakCore (lstsqLsq 0) data box mask).y - (jmax : K)| ≤ (box : K) - 1 :=
+  peak_near_max (lstsqLsq 0) data box mask hbox hny hnx hnn
+
+/-- `estimate_in_peak_box` (crowded fields) for the closed estimator `estimateShiftFull (lstsqLsq 0)`. -/
+theorem estimate_in_peak_box_concrete (img ref : List (K × K)) (searchrad pscale : K)
+    (st : PeakStatus)
+    (hbr : (estimateShiftFull (lstsqLsq 0) img ref searchrad pscale).branch = .peak st) :
+    ∃ ky kx : ℕ,
+      0 < natAt (xy2dhist (img.map fun a => (a.1 / pscale, a.2 / pscale))
+                  (ref.map fun b => (b.1 / pscale, b.2 / pscale)) (searchrad / pscale)) ky kx ∧
+      (∀ j i, natAt (xy2dhist (img.map fun a => (a.1 / pscale, a.2 / pscale))
+                  (ref.map fun b => (b.1 / pscale, b.2 / pscale)) (searchrad / pscale)) j i
+            ≤ natAt (xy2dhist (img.map fun a => (a.1 / pscale, a.2 / pscale))
+                  (ref.map fun b => (b.1 / pscale, b.2 / pscale)) (searchrad / pscale)) ky kx) ∧
+      |(estimateShiftFull (lstsqLsq 0) img ref searchrad pscale).x
+          - binToOffset searchrad pscale (kx : K)| ≤ 4 * |pscale| ∧
+      |(estimateShiftFull (lstsqLsq 0) img ref searchrad pscale).y
+          - binToOffset searchrad pscale (ky : K)| ≤ 4 * |pscale| :=
+  estimate_in_peak_box (lstsqLsq 0) img ref searchrad pscale st hbr
+
+end
+
+/-! ### non-vacuity (concrete least squares) -/
+
+-- lstsqNormal_exact / paraboloid_vertex_unmasked: the 5×5 samples of 10 − (i − 9/4)² − (j − 7/4)²;
+-- the concrete solver recovers the coefficients and `_find_peak` the vertex (9/4, 7/4)
+example : lstsqNormal (0 : ℚ) ((boxPoints paraData none 0 5 0 5).map designRow)
+    ((boxPoints paraData none 0 5 0 5).map fun p => p.2.2)
+    = some ⟨10 - (13 / 4) ^ 2 - (11 / 4) ^ 2, 13 / 2, 11 / 2, 0, -1, -1⟩ := by decide +kernel
+
+example : findPeakConcrete (0 : ℚ) paraData 5 none = .ok ⟨9 / 4, 7 / 4, .success, 0, 5, 0, 5⟩ := by
+  decide +kernel
+
+-- lstsqNormal_is_least_squares on inexact data (a peaked histogram): a unique solution, the fit
+-- succeeds
+def peakData : List (List ℚ) :=
+  [[0, 0, 0, 0, 0], [0, 1, 2, 1, 0], [0, 2, 5, 3, 0], [0, 1, 2, 1, 0], [0, 0, 0, 0, 0]]
+
+example : (lstsqNormal (0 : ℚ) ((boxPoints peakData none 0 5 0 5).map designRow)
+    ((boxPoints peakData none 0 5 0 5).map fun p => p.2.2)).isSome = true := by decide +kernel
+
+example : findPeakConcrete (0 : ℚ) peakData 5 none = .ok ⟨547 / 270, 2, .success, 0, 5, 0, 5⟩ := by
+  decide +kernel
+
+-- paraboloid_vertex_concrete with masked pixels outside a 3×3 block
+example : findPeakConcrete (0 : ℚ) paraData 5
+    (some [[false, true, true, true, true], [true, true, true, true, false],
+           [true, true, true, true, true], [true, true, true, true, true],
+           [true, false, true, true, true]]) = .ok ⟨9 / 4, 7 / 4, .success, 0, 5, 0, 5⟩ := by
+  decide +kernel
+
+-- lstsqNormal_none_iff_singular / lstsqLsq_least_squares_min_norm: good pixels on one row and one
+-- column (nine points on the conic (x − 3)(y − 3) = 0): the normal matrix is singular, numpy's
+-- minimum-norm solution is used and `_find_peak` reports SUCCESS with its vertex
+def crossData : List (List ℚ) :=
+  [[0, 0, 1, 0, 0], [0, 0, 3, 0, 0], [1, 2, 6, 3, 1], [0, 0, 2, 0, 0], [0, 0, 1, 0, 0]]
+def crossMask : Option (List (List Bool)) := some (crossData.map fun r => r.map fun v => decide (0 < v))
+
+example : lstsqNormal (0 : ℚ) ((boxPoints crossData crossMask 0 5 0 5).map designRow)
+    ((boxPoints crossData crossMask 0 5 0 5).map fun p => p.2.2) = none := by decide +kernel
+
+example : findPeakConcrete (0 : ℚ) crossData 5 crossMask
+    = .ok ⟨29784 / 14627, 28724 / 14627, .success, 0, 5, 0, 5⟩ := by decide +kernel
+
+-- two rows of good pixels (rank 5): the vertex of the minimum-norm fit is outside the box, centre of
+-- mass
+example : findPeakConcrete (0 : ℚ)
+    [[0, 0, 0, 0, 0], [0, 0, 0, 0, 0], [1, 2, 6, 3, 1], [1, 1, 2, 2, 1], [0, 0, 0, 0, 0]] 5
+    (some [[false, false, false, false, false], [false, false, false, false, false],
+           [true, true, true, true, true], [true, true, true, true, true],
+           [false, false, false, false, false]])
+    = .ok ⟨21 / 10, 47 / 20, .centerOfMass, 0, 5, 0, 5⟩ := by decide +kernel
+
+-- estimate_in_peak_box_concrete: ten well-separated sources, three unshifted and seven shifted by one
+-- bin in different directions (eight non-zero bins around the peak): the closed estimator goes through
+-- the quadratic fit and returns (2/21, -2/21)
+def crowdRef : List (ℚ × ℚ) := (List.range 10).map fun k => (((100 * k : ℕ) : ℚ), (0 : ℚ))
+def crowdImg : List (ℚ × ℚ) :=
+  List.zipWith (fun r s => (r.1 + s.1, r.2 + s.2)) crowdRef
+    [(0, 0), (0, 0), (0, 0), (1, 0), (-1, 0), (0, 1), (0, -1), (1, 1), (-1, -1), (1, -1)]
+
+example : estimateShiftFull (lstsqLsq (0 : ℚ)) crowdImg crowdRef 3 1
+    = ⟨2 / 21, -2 / 21, .peak .success⟩ := by decide +kernel
 
 end TW.C12
